@@ -171,6 +171,17 @@ def run_bodies(c):
                             bad.append(dict(i=i, j=j, t1=L(tp1[i]), e1=L(ep1[i]), t2=L(tp2[j]), e2=L(ep2[j])))
         return dict(raised="AssertionError", raising_pairs=bad, E=[float(b1.youngs_modulus), float(b2.youngs_modulus)])
     w12, w21 = fo.accumulate_wrenches(cs, b1, b2)
+    kept = None
+    if c.get("then") is not None:
+        # the surface is KEPT while another, different pair of bodies is computed: nothing of it may change
+        before = [np.copy(np.asarray(x)) for x in (cs.contact_forces, cs.contact_areas, cs.contact_coms, cs.contact_planes)] + \
+                 [np.copy(np.asarray(p)) for p in cs.contact_polygons]
+        o1, o2 = make_body(c["then"]["b1"]), make_body(c["then"]["b2"])
+        cs_other = hc.find_contact_surface(o1, o2)
+        fo.accumulate_wrenches(cs_other, o1, o2)
+        after = [np.asarray(x) for x in (cs.contact_forces, cs.contact_areas, cs.contact_coms, cs.contact_planes)] + \
+                [np.asarray(p) for p in cs.contact_polygons]
+        kept = bool(len(before) == len(after) and all(np.array_equal(x, y) for x, y in zip(before, after)))
     out = dict(intersection=bool(cs.intersection), w12=L(w12), w21=L(w21),
                frame2world=L(cs.frame2world), n_tets=[len(b1.tetrahedra_), len(b2.tetrahedra_)],
                E=[float(b1.youngs_modulus), float(b2.youngs_modulus)])
@@ -197,6 +208,8 @@ def run_bodies(c):
             force=L(cs.contact_forces[k]), area=float(cs.contact_areas[k]), com=L(cs.contact_coms[k]),
             sw_inter=bool(sw_inter), sw_plane=L(sw_plane), sw_poly=None if sw_poly is None else L(sw_poly)))
     out["contacts"] = contacts
+    if kept is not None:
+        out["kept_unchanged"] = kept
     out["reported_pairs"] = [[int(i), int(j)] for i, j in zip(cs.intersecting_tetrahedra1, cs.intersecting_tetrahedra2)]
     out["com1"], out["com2"] = L(b1.com), L(b2.com)
     if n:
